@@ -3977,8 +3977,9 @@ class Graph(_protocols.GraphProtocol, Sequence[Node], _display.PrettyPrintable):
         Raises:
             ValueError: If the graph contains a cycle, making topological sorting impossible.
         """
-        # Obtain all nodes from the graph and its subgraphs for sorting
-        nodes = list(onnx_ir.traversal.RecursiveGraphIterator(self))
+        # Obtain all nodes from the graph and its subgraphs for sorting. A subgraph object
+        # that is held by more than one attribute is visited more than once: keep each node once
+        nodes = list(dict.fromkeys(onnx_ir.traversal.RecursiveGraphIterator(self)))
         # Store the sorted nodes of each subgraph
         sorted_nodes_by_graph: dict[Graph, list[Node]] = {
             graph: [] for graph in {node.graph for node in nodes if node.graph is not None}
